@@ -1,0 +1,30 @@
+//go:build verif
+// +build verif
+
+package parser
+
+import (
+	"context"
+	"io"
+	"time"
+)
+
+// VerifLineReader exposes the unexported lineReader to the verification harness (build tag verif).
+type VerifLineReader struct{ lr *lineReader }
+
+// NewVerifLineReader builds the real lineReader over an arbitrary io.Reader with the given bufio size;
+// eofSleep replaces the 200 ms pause the reader makes after an EOF with a pending partial line.
+func NewVerifLineReader(r io.Reader, bufSize int, eofSleep time.Duration) *VerifLineReader {
+	lr := newLineReader(r, bufSize)
+	lr.eofSleep = eofSleep
+	return &VerifLineReader{lr: lr}
+}
+
+// ReadLine is lineReader.readLine.
+func (v *VerifLineReader) ReadLine(ctx context.Context) ([]byte, error) { return v.lr.readLine(ctx) }
+
+// Reset is lineReader.reset.
+func (v *VerifLineReader) Reset(r io.Reader) { v.lr.reset(r) }
+
+// VerifSleepOnEOFMs is the constant sleepOnEOF.
+const VerifSleepOnEOFMs = sleepOnEOF
